@@ -428,3 +428,122 @@ Proof.
   - apply fold_cheb_sparsify. lia.
   - f_equal. rewrite <- (length_sparsify_sub2 x y 0 0). lia.
 Qed.
+
+(* ------------------------------------------------------------------ *)
+(* the angular family: Cauchy-Schwarz for the accumulated triple        *)
+(* ------------------------------------------------------------------ *)
+Lemma cs_step r nx ny a b : 0 <= nx -> 0 <= ny -> r * r <= nx * ny ->
+  (r + a * b) * (r + a * b) <= (nx + a * a) * (ny + b * b).
+Proof.
+  intros Hx Hy H.
+  set (u := nx * (b * b)). set (v := ny * (a * a)). set (T := 2 * (r * (a * b))).
+  assert (U : 0 <= u) by (unfold u; apply Z.mul_nonneg_nonneg; auto; apply Z.square_nonneg).
+  assert (V : 0 <= v) by (unfold v; apply Z.mul_nonneg_nonneg; auto; apply Z.square_nonneg).
+  assert (S1 : T * T <= 4 * (u * v)).
+  { unfold T, u, v.
+    replace (2 * (r * (a * b)) * (2 * (r * (a * b)))) with (4 * ((r * r) * ((a * b) * (a * b)))) by ring.
+    replace (nx * (b * b) * (ny * (a * a))) with ((nx * ny) * ((a * b) * (a * b))) by ring.
+    apply Z.mul_le_mono_nonneg_l; [lia|].
+    apply Z.mul_le_mono_nonneg_r; [apply Z.square_nonneg|exact H]. }
+  assert (S2 : 4 * (u * v) <= (u + v) * (u + v)).
+  { pose proof (Z.square_nonneg (u - v)) as Q. replace ((u + v) * (u + v)) with ((u - v) * (u - v) + 4 * (u * v)) by ring. lia. }
+  assert (S3 : T <= u + v).
+  { destruct (Z_le_gt_dec T (u + v)) as [L|G]; auto. exfalso.
+    assert (G2 : (u + v + 1) * (u + v + 1) <= T * T) by (apply Z.mul_le_mono_nonneg; lia).
+    nia. }
+  replace ((r + a * b) * (r + a * b)) with (r * r + T + (a * b) * (a * b)) by (unfold T; ring).
+  replace ((nx + a * a) * (ny + b * b)) with (nx * ny + (u + v) + (a * b) * (a * b)) by (unfold u, v; ring).
+  lia.
+Qed.
+
+Lemma cos_loop_inv : forall x y r nx ny, 0 <= nx -> 0 <= ny -> r * r <= nx * ny ->
+  let '(r', nx', ny') := cos_loop r nx ny x y in 0 <= nx' /\ 0 <= ny' /\ r' * r' <= nx' * ny'.
+Proof.
+  induction x as [|a x IH]; intros y r nx ny Hx Hy H; destruct y as [|b y]; cbn [cos_loop]; auto.
+  apply IH.
+  - pose proof (Z.square_nonneg a). lia.
+  - pose proof (Z.square_nonneg b). lia.
+  - apply cs_step; auto.
+Qed.
+
+Theorem cauchy_schwarz : forall x y,
+  let '(r, nx, ny) := cos_loop 0 0 0 x y in 0 <= nx /\ 0 <= ny /\ r * r <= nx * ny.
+Proof. intros x y. apply cos_loop_inv; lia. Qed.
+
+Lemma cos_loop_sym : forall x y r nx ny,
+  cos_loop r nx ny y x = (let '(r', nx', ny') := cos_loop r ny nx x y in (r', ny', nx')).
+Proof.
+  induction x as [|a x IH]; intros y r nx ny; destruct y as [|b y]; cbn [cos_loop]; auto.
+  rewrite IH. replace (b * a) with (a * b) by ring. reflexivity.
+Qed.
+
+Lemma cos_loop_same : forall x r n, cos_loop r n n x x = (let '(r', nx', ny') := cos_loop r n n x x in (r', nx', nx')) /\
+  forall d, r = n + d -> fst (fst (cos_loop r n n x x)) = snd (fst (cos_loop r n n x x)) + d.
+Proof.
+  induction x as [|a x IH]; intros r n; cbn [cos_loop].
+  - split; [reflexivity | intros d H; exact H].
+  - destruct (IH (r + a * a) (n + a * a)) as [I1 I2]. split; auto. intros d H. apply I2. lia.
+Qed.
+
+Theorem cosine_symmetric : forall x y, cosine x y = cosine y x /\ alternative_cosine x y = alternative_cosine y x.
+Proof.
+  intros x y. unfold cosine, alternative_cosine. rewrite (cos_loop_sym x y 0 0 0).
+  destruct (cos_loop 0 0 0 x y) as [[r nx] ny]. rewrite (Z.mul_comm ny nx), (andb_comm (ny =? 0)), (orb_comm (ny =? 0)). split; reflexivity.
+Qed.
+
+(* the ratio the wrapper is applied to is well defined and lies in [-1, 1]: q > 0 and r^2 <= q *)
+Theorem cosine_ratio_in_range : forall x y r q, cosine x y = ARatio r q -> 0 < q /\ r * r <= q.
+Proof.
+  intros x y r q. unfold cosine. pose proof (cauchy_schwarz x y) as C.
+  destruct (cos_loop 0 0 0 x y) as [[r0 nx] ny]. destruct C as (Hx & Hy & H).
+  destruct (Z.eqb_spec nx 0), (Z.eqb_spec ny 0); cbn [andb orb]; try discriminate.
+  intros E. inversion E; subst. split; auto. apply Z.mul_pos_pos; lia.
+Qed.
+
+(* the surrogate takes the logarithm of sqrt q / r only when 0 < r and r^2 <= q (so it is >= 0), on the same
+   (r, q) the documented metric uses; the sentinel is given only where the documented cosine distance is >= 1 *)
+Theorem alternative_cosine_core : forall x y,
+  match alternative_cosine x y with
+  | ARatio r q => cosine x y = ARatio r q /\ 0 < r /\ 0 < q /\ r * r <= q
+  | AMax => cosine x y = AOne \/ exists r q, cosine x y = ARatio r q /\ r <= 0
+  | AZero => cosine x y = AZero
+  | AOne => False
+  end.
+Proof.
+  intros x y. pose proof (cosine_ratio_in_range x y) as R. revert R. unfold cosine, alternative_cosine.
+  destruct (cos_loop 0 0 0 x y) as [[r0 nx] ny].
+  destruct (Z.eqb_spec nx 0), (Z.eqb_spec ny 0); cbn [andb orb]; intros R; auto.
+  destruct (Z.leb_spec r0 0).
+  - right. exists r0, (nx * ny). auto.
+  - destruct (R r0 (nx * ny) eq_refl). auto.
+Qed.
+
+(* identical inputs: zero vector -> 0.0, otherwise the ratio is exactly r / sqrt (r*r) with r > 0, i.e. 1: distance 0 *)
+Theorem cosine_identical : forall x,
+  cosine x x = AZero \/ exists r, 0 < r /\ cosine x x = ARatio r (r * r) /\ alternative_cosine x x = ARatio r (r * r).
+Proof.
+  intros x. unfold cosine, alternative_cosine.
+  destruct (cos_loop_same x 0 0) as [S D]. specialize (D 0 eq_refl).
+  pose proof (cauchy_schwarz x x) as C.
+  destruct (cos_loop 0 0 0 x x) as [[r nx] ny]. cbn [fst snd] in D. inversion S; subst. destruct C as (Hx & _ & _).
+  destruct (Z.eqb_spec nx 0); cbn [andb orb]; auto.
+  right. exists nx. replace (nx + 0) with nx by lia. destruct (Z.leb_spec nx 0); [lia|]. repeat split; auto; lia.
+Qed.
+
+Lemma dot_loop_sym : forall x y r, dot_loop r x y = dot_loop r y x.
+Proof.
+  induction x as [|a x IH]; intros y r; destruct y as [|b y]; cbn [dot_loop]; auto.
+  replace (b * a) with (a * b) by ring. apply IH.
+Qed.
+
+Theorem dot_symmetric : forall x y, dot x y = dot y x /\ alternative_dot x y = alternative_dot y x.
+Proof. intros. unfold dot, alternative_dot. rewrite dot_loop_sym. split; reflexivity. Qed.
+
+(* alternative_dot gives the sentinel exactly where dot gives its maximum 1.0, and the logarithm is taken of a positive number *)
+Theorem alternative_dot_core : forall x y,
+  match alternative_dot x y with
+  | ARatio r q => dot x y = ARatio r q /\ 0 < r
+  | AMax => dot x y = AOne
+  | _ => False
+  end.
+Proof. intros. unfold dot, alternative_dot. destruct (Z.leb_spec (dot_loop 0 x y) 0); auto. Qed.
